@@ -6,7 +6,9 @@ Tie: generated store contents (results of the current jugfile, of an older versi
 foreign jugfiles; unpacked / packed / both; held and failed locks; stray temp files; unrelated
 keys) x 4 modes x 4 backends are built with the REAL store and lock objects, the REAL command is
 run (CLI `jug.jug.main`, `cmdapi.run` with parsed options, or `CleanupCommand.run` with a plain
-options object), the store is observed before and after (raw directory / dictionary content,
+options object; for the file stores the jug directory is NAMED in every way a user can name it:
+absolute, relative, ./x, a/../x, doubled slash, trailing slash, /abs/./x, and the default
+'%(jugfile)s.jugdata' derived from `jug cleanup jugfile.py` / `./jugfile.py` / an absolute jugfile), the store is observed before and after (raw directory / dictionary content,
 `list()`, `listlocks()`, `is_failed()`, `can_load()`, `Task.can_load()`) and coqc checks that
 the model maps the observed before-state to the observed after-state.
 Search: the set equations of the property evaluated in Python on the same observations."""
@@ -36,7 +38,7 @@ EVIDENCE = dict(
     level='proof',
     rule='one case = (backend, mode, driver, jugfile, store content) -> real `jug cleanup` run; non-trivial when the store '
          'holds at least one result or lock before the command; distinct = distinct (backend, mode, interned active set, '
-         'interned before-state)',
+         'interned before-state, spelling of the jug directory)',
     explanation='Coq theorems over the cleanup model of the three backends + differential evaluation of the model '
                 'against the real command on real stores (file, packed file, dict, fake-redis)',
 )
@@ -47,6 +49,30 @@ MODE_FLAG = {'default': [], 'keep_locks': ['--keep-locks'], 'locks_only': ['--lo
 BACKENDS = ('file', 'filepack', 'dict', 'redis')
 REDIS_URL = 'redis://localhost/'
 MODNAME = 'c10jugfile'
+
+# How the command is told where the jug directory is (file stores).  name -> (directory name under the case
+# root, --jugdir argument or None = not given: jug derives '%(jugfile)s.jugdata', jugfile argument); %(root)s
+# is the absolute case root, which is the working directory of the command.  'sub' exists in the case root.
+JD_DEFAULT = MODNAME + '.jugdata'
+SPELLINGS = {
+    'abs':            ('jd', '%(root)s/jd', '%(root)s/' + MODNAME + '.py'),
+    'rel':            ('jd', 'jd', MODNAME + '.py'),
+    'dot':            ('jd', './jd', './' + MODNAME + '.py'),
+    'dotdot':         ('jd', 'sub/../jd', MODNAME + '.py'),
+    'dslash-rel':     ('jd', 'sub/..//jd', MODNAME + '.py'),
+    'trailing-rel':   ('jd', 'jd/', MODNAME + '.py'),
+    'dot-trailing':   ('jd', './jd/', './' + MODNAME + '.py'),
+    'nested-rel':     ('sub/deep/jd', 'sub/deep/jd', MODNAME + '.py'),
+    'abs-dot':        ('jd', '%(root)s/./jd', '%(root)s/' + MODNAME + '.py'),
+    'abs-dotdot':     ('jd', '%(root)s/sub/../jd', MODNAME + '.py'),
+    'abs-dslash':     ('jd', '%(root)s//jd', '%(root)s/' + MODNAME + '.py'),
+    'abs-trailing':   ('jd', '%(root)s/jd/', '%(root)s/' + MODNAME + '.py'),
+    'default':        (JD_DEFAULT, None, MODNAME + '.py'),
+    'default-dot':    (JD_DEFAULT, None, './' + MODNAME + '.py'),
+    'default-dotdot': (JD_DEFAULT, None, 'sub/../' + MODNAME + '.py'),
+    'default-abs':    (JD_DEFAULT, None, '%(root)s/' + MODNAME + '.py'),
+}
+SPELLING_NAMES = sorted(SPELLINGS)
 
 JUGFILE = '''from jug import TaskGenerator
 
@@ -114,9 +140,9 @@ def process_state():
         reset_all_hooks()
 
 
-def call_main(argv):
-    """jug.jug.main(['jug'] + argv) in-process -> (exit code, stdout, stderr)."""
-    with process_state():
+def call_main(argv, cwd=None):
+    """jug.jug.main(['jug'] + argv) in-process (working directory cwd) -> (exit code, stdout, stderr)."""
+    with process_state(), (jugrun.chdir(cwd) if cwd else contextlib.nullcontext()):
         with jugrun.quiet() as (out, err):
             try:
                 jug.jug.main(['jug'] + list(argv))
@@ -212,8 +238,13 @@ def gen_spec(rng, H, backend, mode, driver):
         for k in active + [k for k in oldkeys if k not in active] + foreign + lockonly:
             if rng.random() < pl:
                 locks.append([k, rng.random() < 0.5])
+    spelling, build_spelled = 'abs', False
+    if backend in ('file', 'filepack'):
+        spelling = rng.choice(SPELLING_NAMES)
+        build_spelled = rng.random() < 0.5
     spec = {
         'backend': backend, 'mode': mode, 'driver': driver,
+        'spelling': spelling, 'build_spelled': build_spelled,
         'current': {'params': cur_params, 'pairs': [list(p) for p in cur_pairs]},
         'old': old, 'exec_old': exec_old,
         'dump_before_pack': p1, 'dump_after_pack': p2, 'big': big,
@@ -226,31 +257,50 @@ def gen_spec(rng, H, backend, mode, driver):
 
 # ---------------------------------------------------------------------------- real stores
 class Env:
-    def __init__(self, backend, root):
+    def __init__(self, backend, root, spelling='abs', build_spelled=False):
         self.backend = backend
         self.root = root
-        self.jugfile = os.path.join(root, MODNAME + '.py')
-        self.jd = os.path.join(root, 'jd') if backend in ('file', 'filepack') else None
+        self.jugfile = os.path.join(root, MODNAME + '.py')       # where the jugfile is written
+        self.jugfile_arg = self.jugfile                           # how the command names it
+        self.jd = None                                            # canonical absolute jug directory (build / observe)
+        self.jd_arg = None                                        # how the command names it (None: not given)
+        self.jd_spelled = None                                    # the string the command's file_store is made from
+        self.build_spelled = False
+        if backend in ('file', 'filepack'):
+            dname, jd_arg, jf_arg = SPELLINGS[spelling]
+            sub = {'root': root}
+            os.makedirs(os.path.join(root, 'sub', 'deep'), exist_ok=True)
+            self.jd = os.path.join(root, dname)
+            self.jugfile_arg = jf_arg % sub
+            self.jd_arg = None if jd_arg is None else jd_arg % sub
+            # options.parse: jugdir = '%(jugfile)s.jugdata' % {'jugfile': jugfile[:-3]}
+            self.jd_spelled = self.jd_arg if self.jd_arg is not None else self.jugfile_arg[:-3] + '.jugdata'
+            self.build_spelled = build_spelled
+            with jugrun.chdir(root):
+                if os.path.realpath(self.jd_spelled) != os.path.realpath(self.jd):
+                    raise HarnessError('C10 harness: spelling %s does not name %s' % (spelling, self.jd))
         self.dstore = dict_store() if backend == 'dict' else None
         self.srv = fakeredis.FakeServer() if backend == 'redis' else None
         if self.srv is not None:
             fakeredis.install(self.srv)
 
-    def open(self):
-        """a store object as a new process would create it"""
+    def open(self, spelled=False):
+        """a store object as a new process would create it (spelled: from the same string as the command,
+        only meaningful while the working directory is the case root)"""
         if self.backend in ('file', 'filepack'):
-            return file_store(self.jd)
+            return file_store(self.jd_spelled if spelled else self.jd)
         if self.backend == 'dict':
             return self.dstore
         fakeredis.install(self.srv)
         return redis_mod.redis_store(REDIS_URL)
 
-    def jugdir_arg(self):
+    def jugdir_args(self):
+        """the --jugdir part of a command line"""
         if self.backend in ('file', 'filepack'):
-            return self.jd
+            return [] if self.jd_arg is None else ['--jugdir', self.jd_arg]
         if self.backend == 'dict':
-            return self.dstore
-        return REDIS_URL
+            return ['--jugdir', self.dstore]
+        return ['--jugdir', REDIS_URL]
 
 
 def value_for(k, big):
@@ -262,17 +312,25 @@ def value_for(k, big):
 def build(spec, root):
     """Create the store content described by spec with the real store / lock objects."""
     backend = spec['backend']
-    env = Env(backend, root)
+    env = Env(backend, root, spec.get('spelling', 'abs'), spec.get('build_spelled', False))
+    with jugrun.chdir(root):
+        _build(spec, env)
+    return env
+
+
+def _build(spec, env):
+    backend = spec['backend']
     big = set(spec['big'])
-    stale = env.open()               # for file stores: opened before any pack exists, its .packed stays {}
+    sp = env.build_spelled           # the producers named the jug directory like the command will
+    stale = env.open(sp)             # for file stores: opened before any pack exists, its .packed stays {}
     if spec['exec_old']:
         old = spec['old']
         write_jugfile(env.jugfile, old['params'], [tuple(p) for p in old['pairs']])
-        code, out, err = call_main(['execute', env.jugfile, '--jugdir', env.jugdir_arg(), '--will-cite',
-                                    '--nr-wait-cycles', '1', '--wait-cycle-time', '0'])
+        code, out, err = call_main(['execute', env.jugfile_arg] + env.jugdir_args() +
+                                   ['--will-cite', '--nr-wait-cycles', '1', '--wait-cycle-time', '0'], cwd=env.root)
         if code not in (None, 0):
             raise HarnessError('C10 harness: jug execute of the old jugfile failed: %r %s %s' % (code, out[-300:], err[-300:]))
-    s1 = env.open()
+    s1 = env.open(sp)
     for k in spec['dump_before_pack']:
         s1.dump(value_for(k, big), bx(k))
     if backend == 'filepack':
@@ -298,7 +356,6 @@ def build(spec, root):
             env.srv.data[b'misc:%d' % i] = b'x'
     cur = spec['current']
     write_jugfile(env.jugfile, cur['params'], [tuple(p) for p in cur['pairs']])
-    return env
 
 
 def scan_file_store(jd):
@@ -354,7 +411,8 @@ def observe(env, keys, inproc=None, tasks=None):
     else:
         o['raw'] = scan_kv(list(env.srv.data.items()), redis_mod._LOCKED, redis_mod._FAILED)
     if inproc is not None:
-        o['list_inproc'] = sorted(set(hx(k) for k in inproc.list()))
+        with jugrun.chdir(env.root):          # the command's store object may hold a relative path
+            o['list_inproc'] = sorted(set(hx(k) for k in inproc.list()))
     if tasks is not None:
         old = jug.task.Task.store
         jug.task.Task.store = s
@@ -378,28 +436,31 @@ class PlainOptions:
 
 
 def run_cleanup(spec, env):
-    """Run the real command. Returns (active hashes in task order, store object the command used, tasks, message)."""
+    """Run the real command in the case root. Returns (active hashes in task order, store object the command used,
+    tasks, message)."""
     mode, driver = spec['mode'], spec['driver']
     jugrun.fresh()
     jug.task.Task.store = None
     if driver == 'cli':
-        code, out, err = call_main(['cleanup', env.jugfile, '--jugdir', env.jugdir_arg()] + MODE_FLAG[mode])
+        code, out, err = call_main(['cleanup', env.jugfile_arg] + env.jugdir_args() + MODE_FLAG[mode], cwd=env.root)
         if code not in (None, 0):
             raise RuntimeError('jug cleanup exited with %r: %s %s' % (code, out[-300:], err[-300:]))
         msg = out.strip()
     elif driver == 'cmdapi':
-        with process_state():
+        with process_state(), jugrun.chdir(env.root):
             with jugrun.quiet() as (out, err):
-                arg = env.jugdir_arg()
-                options = jug.options.parse(['cleanup', env.jugfile, '--jugdir', arg if isinstance(arg, str) else 'dict_store']
-                                            + MODE_FLAG[mode])
-                store, space = jug.jug.init(options.jugfile, arg if not isinstance(arg, str) else options.jugdir)
+                jargs = env.jugdir_args()
+                obj = jargs[1] if jargs and not isinstance(jargs[1], str) else None
+                if obj is not None:
+                    jargs = ['--jugdir', 'dict_store']
+                options = jug.options.parse(['cleanup', env.jugfile_arg] + jargs + MODE_FLAG[mode])
+                store, space = jug.jug.init(options.jugfile, obj if obj is not None else options.jugdir)
                 cmdapi.run('cleanup', options=options, store=store, jugspace=space)
                 store.close()
         msg = out.getvalue().strip()
     elif driver == 'direct':
-        with process_state():
-            store, space = jug.jug.init(env.jugfile, env.open())
+        with process_state(), jugrun.chdir(env.root):
+            store, space = jug.jug.init(env.jugfile_arg, env.open(spelled=True))
             opts = PlainOptions(mode)
             cleanup_mod.cleanup.run(store=store, options=opts)
         msg = ' '.join(opts.printed)
@@ -622,7 +683,10 @@ def run(ck):
                                   'what': 'cleanup %s on %s: %s' % (mode, backend, clause.split('(')[0].strip()),
                                   'clause': clause, 'expected': exp, 'observed': obs, **meta})
                 nontrivial = bool(before['list'] or before['locks'])
-                ck.distinct((backend, mode, plist(ids[k] for k in active), state_lit(backend, before, ids)), nontrivial)
+                ck.distinct((backend, mode, plist(ids[k] for k in active), state_lit(backend, before, ids),
+                             spec['spelling']), nontrivial)
+                if backend in ('file', 'filepack'):
+                    ck.count('jugdir spelling:%s' % spec['spelling'])
                 ck.count('backend:%s' % backend)
                 ck.count('mode:%s' % mode)
                 ck.count('driver:%s' % driver)
@@ -689,7 +753,7 @@ def run_exclusive(spec, croot, flags):
     keys = set(spec['dump_before_pack']) | set(spec['dump_after_pack']) | set(k for k, _ in spec['locks'])
     before = observe(env, keys)
     jugrun.fresh()
-    code, out, err = call_main(['cleanup', env.jugfile, '--jugdir', env.jugdir_arg()] + flags)
+    code, out, err = call_main(['cleanup', env.jugfile_arg] + env.jugdir_args() + flags, cwd=env.root)
     after = observe(env, keys)
     jugrun.fresh()
     bad = []
@@ -727,7 +791,9 @@ def replay(obj):
                 os.environ['HOME'] = home
             fakeredis.uninstall()
     ids = intern(active, before, after)
-    print('backend %s  mode %s  driver %s  message %r' % (spec['backend'], spec['mode'], spec['driver'], msg))
+    print('backend %s  mode %s  driver %s  jugdir spelling %s %r  message %r'
+          % (spec['backend'], spec['mode'], spec['driver'], spec.get('spelling', 'abs'),
+             SPELLINGS[spec.get('spelling', 'abs')][1:], msg))
     print('active   ', [ids[k] for k in active])
     print('before   ', before_summary(before, ids))
     print('after    ', before_summary(after, ids))
